@@ -128,7 +128,9 @@ func (h *c26H) random() {
 		if r.Intn(10) == 0 {
 			pid = int64(r.Int31())
 		}
-		sock := c26Pick(r, dirs.SnapdSocket, dirs.SnapdSocket, dirs.SnapSocket, dirs.SnapSocket, "/tmp/other.socket", "", dirs.SnapdSocket+"x", strings.TrimPrefix(dirs.SnapSocket, dirs.GlobalRootDir))
+		// socket paths stay placeholders while the encoding is mutated, so the
+		// case list does not depend on where the scratch root lives
+		sock := c26Pick(r, "{MAIN}", "{MAIN}", "{SNAP}", "{SNAP}", "/tmp/other.socket", "", "{MAIN}x", "/run/snapd-snap.socket")
 		addr := c26RefFormat(pid, uid, sock)
 		kind := "random-wellformed"
 		if r.Intn(100) < 15 {
@@ -149,6 +151,7 @@ func (h *c26H) random() {
 			}
 			kind = "random-mutated:" + strings.Join(ops, "+")
 		}
+		addr = strings.NewReplacer("{MAIN}", dirs.SnapdSocket, "{SNAP}", dirs.SnapSocket).Replace(addr)
 		cl := &c26Caller{AddrKind: kind, Addr: addr, Polkit: c26PolkitAnswers[r.Intn(len(c26PolkitAnswers))]}
 		switch k := r.Intn(10); {
 		case k < 4:
@@ -330,7 +333,7 @@ func (h *c26H) roundTrip() {
 		s := u.String()
 		c.Eval()
 		c.Count("roundtrip_cases", 1)
-		wit := map[string]interface{}{"case_index": i, "stream": "roundtrip", "pid": pid, "uid": uid, "socket": sock, "encoded": s}
+		wit := map[string]interface{}{"roundtrip_index": i, "stream": "roundtrip", "pid": pid, "uid": uid, "socket": sock, "encoded": s}
 		// independent decoder on snapd's encoder
 		rp, ru, rs, rifs, ok := c26RefParse(s)
 		if !ok || rp != int64(pid) || ru != uint64(uid) || rs != sock || len(rifs) != 0 {
